@@ -89,6 +89,7 @@ def run(P, C, tier):
     C.rule("R2", "the decision reads nothing else of the two versions (every branch between the lookup and the outcome is one of the classified comparisons)")
     C.rule("R3", "rows absent locally are always fetched; the comparison is made against the stored row with the same id")
     C.rule("R5", "in the history comparison every remote (day, entity) whose daily hash differs from the local one, or that is unknown locally, is exchanged: the only way to skip synchronise_day is the equal-hash edge")
+    C.rule("R6", "the previous-version fields carried with a selected row (old_mdate, old_room_id, old_verifying_key, old_local_id, old_entity) all describe the STORED row")
     C.rule("R4", "the version that is stored is the version that won the comparison: the fetched row's (mdate, signature) is checked against the stored version (or the advertised identifier) before it replaces it")
     try:
         b = P.body("node::Node::filter_existing")
@@ -230,3 +231,27 @@ def run(P, C, tier):
         C.ob("R5", "differing-days-exchanged", ok, sh.loc(hdr) if hdr is not None else sh.loc(), det)
     except mir.MissingAnchor as e:
         C.anchor_missing("R5", "synchronise_history", e)
+
+    # ---- R6: NodeToInsert.old_* describe the stored row
+    want = {"old_local_id": "node._local_id", "old_room_id": "node.room_id", "old_mdate": "node.mdate", "old_verifying_key": "node.verifying_key", "old_entity": "node._entity"}
+    n = 0
+    for bi in sorted(b.live_blocks()):
+        for si, st in enumerate(b.blocks[bi]["s"]):
+            rv = st["rv"]
+            if rv["r"] == "aggr" and rv.get("adt") == "database::node::NodeToInsert":
+                t = b.def_term(bi, si, rv, 0)
+                f = dict(zip(t[5], t[4]))
+                stored = any(field_path(x).startswith("node.") for x in t[4])
+                if not stored:
+                    continue   # the literal for rows that are absent locally
+                n += 1
+                for k, w in want.items():
+                    if k not in f:
+                        continue
+                    v = f[k]
+                    if v[0] == "aggr" and v[3] == "Some" and v[4]:
+                        v = v[4][0]
+                    got = field_path(v)
+                    C.ob("R6", "previous-version:" + k, got == w, "%s:%d" % (b.file, st["at"][0]),
+                         "%s := %s (the stored row's %s is %s): the lower bound of the reference exchange, the day to recompute, and the rights evaluation use it" % (k, got, k, w))
+    C.floor("R6", "NodeToInsert literal for an existing row", n, 1)
